@@ -586,8 +586,6 @@ impl<'lifespan: 'transient, 'transient, 'outer: 'lifespan> IsotopicDistribution<
             if peak.intensity < 1e-10 {
                 if !has_real_peaks {
                     peak_list.push(peak);
-                } else {
-                    break;
                 }
             } else {
                 has_real_peaks = true;
